@@ -34,6 +34,9 @@ import (
 // ErrAsyncNoSpace is returned when an write queue full if not writeForever flags.
 var ErrAsyncNoSpace = errors.New("async write queue is full")
 
+// ErrChannelClosed is returned by writes on a channel that was closed without an error (Close(nil)).
+var ErrChannelClosed = errors.New("netty: channel closed")
+
 // Channel is defines a server-side-channel & client-side-channel
 type Channel interface {
 	// ID channel id
@@ -160,8 +163,26 @@ type channel struct {
 	untilWrite     bool
 	closed         int32
 	running        int32
-	closeErr       error
-	writeLock      sync.Mutex // for sync write
+	closeErr       atomic.Value // closeCause of the Close call that took effect
+	writeLock      sync.Mutex   // for sync write
+}
+
+// closeCause wraps the (possibly nil) error given to Close so that it can be kept in an atomic.Value.
+type closeCause struct {
+	err error
+}
+
+// closedError reports why the channel no longer accepts writes; nil while it is open.
+// A closed channel always yields a non-nil error, also when it was closed with Close(nil).
+func (c *channel) closedError() error {
+	if 0 != atomic.LoadInt32(&c.closed) {
+		if cause, ok := c.closeErr.Load().(closeCause); ok && nil != cause.err {
+			return cause.err
+		}
+		return ErrChannelClosed
+	}
+	// the parent context ended: the read loop is about to close the channel.
+	return c.ctx.Err()
 }
 
 // ID get channel id
@@ -172,10 +193,8 @@ func (c *channel) ID() int64 {
 // Write a message through the Pipeline
 func (c *channel) Write(message Message) error {
 	if !c.IsActive() {
-		select {
-		case <-c.ctx.Done():
-			return c.closeErr
-		}
+		<-c.ctx.Done()
+		return c.closedError()
 	}
 
 	c.invokeMethod(func() {
@@ -204,7 +223,7 @@ func (c *channel) Close(err error) {
 			}
 		}
 
-		c.closeErr = err
+		c.closeErr.Store(closeCause{err})
 		c.transport.Close()
 		c.cancel()
 
@@ -216,8 +235,8 @@ func (c *channel) Close(err error) {
 
 // Writev to write [][]byte for optimize syscall
 func (c *channel) Writev(p [][]byte) (n int64, err error) {
-	if nil != c.closeErr {
-		return 0, c.closeErr
+	if err := c.closedError(); nil != err {
+		return 0, err
 	}
 
 	// enable async write
@@ -242,6 +261,10 @@ func (c *channel) Write1(p []byte) (n int, err error) {
 // CtxWrite1 channels with asynchronous write enabled, writes will block until the write is successfully sent to the queue or times out.
 // for synchronous write channels, SetDeadline will be called to ensure that the blocking write operation is interrupted after a timeout.
 func (c *channel) CtxWrite1(ctx context.Context, p []byte) (n int, err error) {
+	if err := c.closedError(); nil != err {
+		return 0, err
+	}
+
 	// enable async write
 	if nil != c.writeQueue {
 		wn, err := c.asyncWrite(ctx, p, true)
@@ -269,6 +292,10 @@ func (c *channel) CtxWrite1(ctx context.Context, p []byte) (n int, err error) {
 // CtxWritev channels with asynchronous write enabled, writes will block until the write is successfully sent to the queue or times out.
 // for synchronous write channels, SetDeadline will be called to ensure that the blocking write operation is interrupted after a timeout.
 func (c *channel) CtxWritev(ctx context.Context, pv [][]byte) (n int64, err error) {
+	if err := c.closedError(); nil != err {
+		return 0, err
+	}
+
 	// enable async write
 	if nil != c.writeQueue {
 		wn, err := c.asyncWritev(ctx, pv)
@@ -296,8 +323,8 @@ func (c *channel) CtxWritev(ctx context.Context, pv [][]byte) (n int64, err erro
 // ReadFrom reads data from r until EOF or error.
 // The return value n is the number of bytes read.
 func (c *channel) ReadFrom(r io.Reader) (n int64, err error) {
-	if nil != c.closeErr {
-		return 0, c.closeErr
+	if err := c.closedError(); nil != err {
+		return 0, err
 	}
 
 	const MinRead = 1024
@@ -338,8 +365,8 @@ func (c *channel) Writer() io.Writer {
 }
 
 func (c *channel) write1(p []byte, clone bool) (n int, err error) {
-	if nil != c.closeErr {
-		return 0, c.closeErr
+	if err := c.closedError(); nil != err {
+		return 0, err
 	}
 
 	// enable async write
@@ -380,7 +407,7 @@ func (c *channel) asyncWrite(ctx context.Context, p []byte, clone bool) (int64, 
 		case <-ctx.Done():
 			return 0, ctx.Err()
 		case <-c.ctx.Done():
-			return 0, c.closeErr
+			return 0, c.closedError()
 		case c.writeQueue <- packet:
 			// write queue
 		}
@@ -389,7 +416,7 @@ func (c *channel) asyncWrite(ctx context.Context, p []byte, clone bool) (int64, 
 		case <-ctx.Done():
 			return 0, ctx.Err()
 		case <-c.ctx.Done():
-			return 0, c.closeErr
+			return 0, c.closedError()
 		case c.writeQueue <- packet:
 			// write queue
 		default:
@@ -429,7 +456,7 @@ func (c *channel) asyncWritev(ctx context.Context, p [][]byte) (int64, error) {
 		case <-ctx.Done():
 			return 0, ctx.Err()
 		case <-c.ctx.Done():
-			return 0, c.closeErr
+			return 0, c.closedError()
 		case c.writeQueue <- packet:
 			// write queue
 		}
@@ -438,7 +465,7 @@ func (c *channel) asyncWritev(ctx context.Context, p [][]byte) (int64, error) {
 		case <-ctx.Done():
 			return 0, ctx.Err()
 		case <-c.ctx.Done():
-			return 0, c.closeErr
+			return 0, c.closedError()
 		case c.writeQueue <- packet:
 			// write queue
 		default:
